@@ -452,6 +452,75 @@ impl MHeader {
     }
 }
 
+impl MHeader {
+    /// Read a header map from a tree produced by the harness CBOR reader (used to carry arbitrary
+    /// header descriptors in traces).  Returns None for shapes the harness generators never emit.
+    pub fn from_item(it: &Item) -> Option<MHeader> {
+        let m = it.as_map()?;
+        let mut h = MHeader::default();
+        let regp = |x: &Item, private_below: i128| -> Option<MRegP> {
+            match &x.kind {
+                Kind::Text(t) => Some(MRegP::Text(String::from_utf8_lossy(t).into_owned())),
+                _ => {
+                    let i = x.as_int()?;
+                    let i64v = i64::try_from(i).ok()?;
+                    if i < private_below && <iana::Algorithm as EnumI64>::from_i64(i64v).is_none() {
+                        Some(MRegP::Private(i64v))
+                    } else {
+                        Some(MRegP::Assigned(i64v))
+                    }
+                }
+            }
+        };
+        let reg = |x: &Item| -> Option<MReg> {
+            match &x.kind {
+                Kind::Text(t) => Some(MReg::Text(String::from_utf8_lossy(t).into_owned())),
+                _ => Some(MReg::Assigned(i64::try_from(x.as_int()?).ok()?)),
+            }
+        };
+        for (k, v) in m {
+            match k.as_int() {
+                Some(1) => h.alg = Some(regp(v, -65536)?),
+                Some(2) => h.crit = v.as_array()?.iter().map(reg).collect::<Option<Vec<_>>>()?,
+                Some(3) => h.content_type = Some(reg(v)?),
+                Some(4) => h.key_id = v.as_bytes()?.to_vec(),
+                Some(5) => h.iv = v.as_bytes()?.to_vec(),
+                Some(6) => h.partial_iv = v.as_bytes()?.to_vec(),
+                Some(7) => {
+                    let a = v.as_array()?;
+                    if matches!(a.first().map(|x| &x.kind), Some(Kind::Bytes(_))) {
+                        h.counter_signatures.push(MSignature::from_item(v)?);
+                    } else {
+                        for sg in a {
+                            h.counter_signatures.push(MSignature::from_item(sg)?);
+                        }
+                    }
+                }
+                _ => {
+                    let l = match &k.kind {
+                        Kind::Text(t) => MLabel::Text(String::from_utf8_lossy(t).into_owned()),
+                        _ => MLabel::Int(i64::try_from(k.as_int()?).ok()?),
+                    };
+                    h.rest.push((l, MValue::from_item(v)));
+                }
+            }
+        }
+        Some(h)
+    }
+}
+
+impl MSignature {
+    pub fn from_item(it: &Item) -> Option<MSignature> {
+        let a = it.as_array()?;
+        if a.len() != 3 {
+            return None;
+        }
+        let pb = a[0].as_bytes()?;
+        let ph = if pb.is_empty() { MHeader::default() } else { MHeader::from_item(&crate::refcbor::read_exact(pb).ok()?)? };
+        Some(MSignature { protected: MProtected::built(ph), unprotected: MHeader::from_item(&a[1])?, signature: a[2].as_bytes()?.to_vec() })
+    }
+}
+
 impl MProtected {
     pub fn to_coset(&self) -> coset::ProtectedHeader {
         coset::ProtectedHeader { original_data: self.original.clone(), header: self.header.to_coset() }
